@@ -71,11 +71,12 @@ func (b *backoff) next(attempt int) time.Duration {
 	durf := minf * math.Pow(1.5, float64(attempt))
 	durf = durf + rand.Float64()*minf
 
-	delay := time.Duration(durf)
-
-	if delay > b.maxDelay {
+	// Clamp before converting: after about 60 attempts durf exceeds the int64
+	// range of time.Duration, and an out-of-range conversion yields a negative
+	// delay, i.e. no delay at all.
+	if durf > float64(b.maxDelay) {
 		return b.maxDelay
 	}
 
-	return delay
+	return time.Duration(durf)
 }
